@@ -134,10 +134,13 @@ theorem liveTerm_le_liveSum {cfg : Cfg} {s : State} {k : OKey} {o : Order} (ho :
   simpa [liveTerm, hl] using this
 
 theorem finishOrder_succeeds {cfg : Cfg} {s : State} {k : OKey} {o : Order} {ac : AppCfg} (st : OStatus)
-    (hi : Inv cfg s) (hs : Solvent s) (ho : s.order? k = some o) (hl : o.status.live = true) (hac : cfg.app? o.app = some ac) :
+    (hi : Inv cfg s) (hs : s.bal (.mOut o.app o.pair) o.od ≤ s.bal (.mIn o.app o.pair) o.od)
+    (ho : s.order? k = some o) (hl : o.status.live = true) (hac : cfg.app? o.app = some ac) :
     ∃ s', finishOrder cfg s k st = some s' := by
   have hok := hi.ords o (order?_some ho).1
-  have hge := escrow_ge_live hi hs o.app o.pair o.od
+  have hge : liveSum cfg o.app o.pair o.od s.orders ≤ s.bal (.pairEscrow o.app o.pair) o.od := by
+    have := hi.pairEsc o.app o.pair o.od
+    omega
   have hterm := liveTerm_le_liveSum (cfg := cfg) ho hl
   have htot := settle_total ac.feeRate o hok.2.1
   rw [rateOf_of_app hac] at hterm
@@ -156,16 +159,16 @@ theorem finishOrder_succeeds {cfg : Cfg} {s : State} {k : OKey} {o : Order} {ac 
 
 /-- An order that is not in its placement batch can be cancelled by its owner (given solvent matching flows). -/
 theorem cancelOrder_succeeds {cfg : Cfg} {s : State} {a u p i : Nat} {o : Order} {pp : Pair} {ac : AppCfg}
-    (hi : Inv cfg s) (hs : Solvent s) (hp0 : p ≠ 0) (hi0 : i ≠ 0) (hac : cfg.app? a = some ac)
+    (hi : Inv cfg s) (hs : ∀ d, s.bal (.mOut a p) d ≤ s.bal (.mIn a p) d) (hp0 : p ≠ 0) (hi0 : i ≠ 0) (hac : cfg.app? a = some ac)
     (ho : s.order? (a, p, i) = some o) (hown : o.owner = u) (hl : o.status.live = true)
     (hpp : s.pair? a p = some pp) (hb : o.batch ≠ pp.curBatch) :
     ∃ s', cancelOrder cfg s a u p i = some s' ∧
       (∀ o', s'.order? (a, p, i) = some o' → o'.status = .canceled) ∧
       s'.bal (.user u) o.od = s.bal (.user u) o.od + (o.remaining + (feeRes ac.feeRate o - fwdSpec ac.feeRate o)) := by
-  obtain ⟨-, hoa, -, -⟩ := order?_some ho
-  simp only at hoa
+  obtain ⟨-, hoa, hop, -⟩ := order?_some ho
+  simp only at hoa hop
   have hac' : cfg.app? o.app = some ac := by rw [hoa]; exact hac
-  obtain ⟨s', hf⟩ := finishOrder_succeeds .canceled hi hs ho hl hac'
+  obtain ⟨s', hf⟩ := finishOrder_succeeds .canceled hi (by rw [hoa, hop]; exact hs o.od) ho hl hac'
   have hnc : o.status ≠ .canceled := by intro e; rw [e] at hl; simp [OStatus.live] at hl
   refine ⟨s', ?_, ?_, ?_⟩
   · unfold cancelOrder
